@@ -1,4 +1,6 @@
-(** Specification and proofs for the session table (C12). *)
+(** Specification and proofs for the session table (C12), over cookie
+    spellings: the map in memory is keyed by the cookie string, the bucket by
+    the decoded bytes (Model/Session.v). *)
 From AGH Require Import Base.Run Model.Session.
 From stdpp Require Import gmap.
 From Coq Require Import Lia.
@@ -10,34 +12,273 @@ Proof. revert st; induction h as [|x h IH]; intros st; cbn; auto. Qed.
 Lemma srun_app ttl st h1 h2 : srun ttl st (h1 ++ h2) = srun ttl (srun ttl st h1) h2.
 Proof. revert st; induction h1 as [|x h IH]; intros st; cbn; auto. Qed.
 
-(** * Memory and disk agree *)
+(** * Hex *)
 
-Definition mirror (st : sstate) : Prop := ss_mem st = ss_disk st.
+Definition is_bytes (k : bytes) : Prop := Forall (fun b => b < 256) k.
 
-Lemma sstep_mirror ttl o st : mirror st -> mirror (fst (sstep ttl o st)).
+Lemma hex_digit_inj a b : hex_digit a = hex_digit b -> a = b.
+Proof. unfold hex_digit. destruct (N.ltb_spec a 10), (N.ltb_spec b 10); lia. Qed.
+
+Global Instance hex_encode_inj : Inj (=) (=) hex_encode.
 Proof.
-  unfold mirror. destruct st as [m d]; cbn. intros ->.
-  destruct o as [now tok u|now tok|tok|now]; cbn; auto.
-  unfold check_session; cbn.
-  destruct (d !! tok) as [s|]; cbn; auto.
-  destruct (s_expire s <=? u32 now); cbn; auto.
-  destruct (s_expire s / day =? u32 (u32 now + ttl) / day); cbn; auto.
+  intros k. induction k as [|b k IH]; intros [|b' k'] H; cbn in H; try discriminate; auto.
+  injection H as H1 H2 H3. apply hex_digit_inj in H1, H2. f_equal; [|auto].
+  rewrite (N.div_mod b 16), (N.div_mod b' 16) by lia. congruence.
 Qed.
 
-Lemma srun_mirror_from ttl h st : mirror st -> mirror (srun ttl st h).
-Proof. revert st; induction h as [|o h IH]; intros st H; cbn; auto using sstep_mirror. Qed.
+Lemma hex_val_digit n : n < 16 -> hex_val (hex_digit n) = Some n.
+Proof.
+  intros H. destruct n as [|p]; [reflexivity|].
+  repeat (destruct p as [p|p|]; try reflexivity; try lia).
+Qed.
 
-Theorem reachable_mirror ttl h : mirror (srun ttl s_init h).
-Proof. apply srun_mirror_from. reflexivity. Qed.
+(** Decoding undoes encoding (on byte strings). *)
+Lemma hex_decode_encode k : is_bytes k -> hex_decode_prefix (hex_encode k) = k.
+Proof.
+  induction 1 as [|b k Hb _ IH]; [reflexivity|]. cbn [hex_encode hex_decode_prefix].
+  rewrite !hex_val_digit by (try apply N.div_lt_upper_bound; try apply N.mod_lt; lia).
+  rewrite IH. f_equal. symmetry. apply N.div_mod. lia.
+Qed.
+
+(** A spelling is canonical when it is what [hex.EncodeToString] prints. *)
+Definition canonical (sp : bytes) : Prop := hex_encode (hex_decode_prefix sp) = sp.
+
+Lemma canonical_encode raw : is_bytes raw -> canonical (hex_encode raw).
+Proof. intros H. unfold canonical. rewrite hex_decode_encode; auto. Qed.
+
+(** Two spellings of one key of which one is canonical: the other is not,
+    unless they are equal. *)
+Lemma canonical_unique sp sp' :
+  canonical sp -> canonical sp' -> hex_decode_prefix sp' = hex_decode_prefix sp -> sp' = sp.
+Proof. unfold canonical. intros H1 H2 H3. congruence. Qed.
+
+Lemma classic_canonical sp : canonical sp \/ ~ canonical sp.
+Proof. unfold canonical. destruct (decide (hex_encode (hex_decode_prefix sp) = sp)); auto. Qed.
+
+(** * Invariants *)
+
+(** For every history: the keys in memory are canonical spellings of byte
+    strings, and whatever is on disk is in memory under its canonical
+    spelling.  (The converse needs more: see [mirror].) *)
+Record inv (st : sstate) : Prop := {
+  inv_mem : forall sp s, ss_mem st !! sp = Some s -> exists raw, sp = hex_encode raw /\ is_bytes raw;
+  inv_disk : forall raw s, ss_disk st !! raw = Some s -> is_bytes raw /\ ss_mem st !! hex_encode raw = Some s;
+}.
+
+Lemma inv_mem_canonical st sp s : inv st -> ss_mem st !! sp = Some s -> canonical sp.
+Proof. intros Hi H. destruct (inv_mem _ Hi _ _ H) as (raw & -> & Hb). apply canonical_encode; auto. Qed.
+
+Lemma inv_noncanonical st sp : inv st -> ~ canonical sp -> ss_mem st !! sp = None.
+Proof.
+  intros Hi Hn. destruct (ss_mem st !! sp) as [s|] eqn:E; [|reflexivity].
+  exfalso. apply Hn. eapply inv_mem_canonical; eauto.
+Qed.
+
+Definition wf_new (o : sop) : Prop :=
+  match o with SNew _ raw _ => is_bytes raw | _ => True end.
+
+Lemma inv_init : inv s_init.
+Proof. split; cbn; intros ? ?; rewrite lookup_empty; discriminate. Qed.
+
+Lemma inv_new ttl now raw u st : is_bytes raw -> inv st -> inv (new_session ttl now raw u st).
+Proof.
+  intros Hb [I1 I2]. split; cbn.
+  - intros sp s. rewrite lookup_insert_Some. intros [[<- _]|[_ H]]; eauto.
+  - intros raw' s. rewrite lookup_insert_Some. intros [[<- <-]|[Hne H]].
+    + split; auto. apply lookup_insert.
+    + destruct (I2 _ _ H) as [Hb' Hm]. split; auto.
+      rewrite lookup_insert_ne; auto. intros E. apply Hne. apply (inj hex_encode). exact E.
+Qed.
+
+Lemma inv_logout sp st : inv st -> inv (logout sp st).
+Proof.
+  intros [I1 I2]. split; cbn.
+  - intros sp' s. rewrite lookup_delete_Some. intros [_ H]. eauto.
+  - intros raw s. rewrite lookup_delete_Some. intros [Hne H].
+    destruct (I2 _ _ H) as [Hb Hm]. split; auto.
+    assert (Hne' : sp <> hex_encode raw) by (intros ->; apply Hne, hex_decode_encode; auto).
+    rewrite lookup_delete_ne by auto. auto.
+Qed.
+
+Lemma inv_check ttl now sp st : inv st -> inv (fst (check_session ttl now sp st)).
+Proof.
+  intros Hi. unfold check_session.
+  destruct (ss_mem st !! sp) as [s0|] eqn:E; cbn; auto.
+  destruct (s_expire s0 <=? u32 now); cbn; [apply (inv_logout sp st Hi)|].
+  destruct (s_expire s0 / day =? u32 (u32 now + ttl) / day); cbn; auto.
+  destruct (inv_mem _ Hi _ _ E) as (raw0 & -> & Hb0). rewrite hex_decode_encode by auto.
+  destruct Hi as [I1 I2]. split; cbn.
+  - intros sp' s. rewrite lookup_insert_Some. intros [[<- _]|[_ H]]; eauto.
+  - intros raw s. rewrite lookup_insert_Some. intros [[<- <-]|[Hne H]].
+    + split; auto. apply lookup_insert.
+    + destruct (I2 _ _ H) as [Hb Hm]. split; auto.
+      rewrite lookup_insert_ne; auto. intros E'. apply Hne. apply (inj hex_encode). exact E'.
+Qed.
+
+Lemma inv_logout_request ttl now sp st : inv st -> inv (fst (logout_request ttl now sp st)).
+Proof.
+  intros Hi. unfold logout_request. pose proof (inv_check ttl now sp st Hi) as Hc.
+  destruct (check_session ttl now sp st) as [st' r]. cbn in Hc.
+  destruct r; cbn; auto using inv_logout.
+Qed.
+
+Lemma restart_mem_Some now st sp s :
+  ss_mem (restart now st) !! sp = Some s <->
+  exists raw, sp = hex_encode raw /\ ss_disk st !! raw = Some s /\ u32 now < s_expire s.
+Proof.
+  unfold restart. cbn. rewrite lookup_kmap_Some by apply _.
+  split; intros (raw & -> & H); exists raw; (split; [reflexivity|]).
+  - apply map_filter_lookup_Some in H. exact H.
+  - apply map_filter_lookup_Some. exact H.
+Qed.
+
+Lemma restart_disk_Some now st raw s :
+  ss_disk (restart now st) !! raw = Some s <-> ss_disk st !! raw = Some s /\ u32 now < s_expire s.
+Proof. unfold restart. cbn. apply map_filter_lookup_Some. Qed.
+
+Lemma inv_restart now st : inv st -> inv (restart now st).
+Proof.
+  intros [I1 I2]. split.
+  - intros sp s. rewrite restart_mem_Some. intros (raw & -> & H & _). exists raw. split; auto. apply (I2 _ _ H).
+  - intros raw s. rewrite restart_disk_Some. intros [H Hl]. split; [apply (I2 _ _ H)|].
+    apply restart_mem_Some. eauto.
+Qed.
+
+Lemma inv_step ttl o st : wf_new o -> inv st -> inv (fst (sstep ttl o st)).
+Proof.
+  intros Hw Hi. destruct o as [now raw u|now sp|now sp|sp|now]; cbn [sstep].
+  - apply inv_new; auto.
+  - pose proof (inv_check ttl now sp st Hi). destruct (check_session ttl now sp st); auto.
+  - pose proof (inv_logout_request ttl now sp st Hi). destruct (logout_request ttl now sp st); auto.
+  - apply inv_logout; auto.
+  - apply inv_restart; auto.
+Qed.
+
+Lemma inv_run ttl h : forall st, Forall wf_new h -> inv st -> inv (srun ttl st h).
+Proof.
+  induction h as [|o h IH]; intros st Hw Hi; [exact Hi|].
+  apply Forall_cons_1 in Hw as [Ho Hw]. cbn. apply IH; auto using inv_step.
+Qed.
+
+Theorem reachable_inv ttl h : Forall wf_new h -> inv (srun ttl s_init h).
+Proof. intros Hw. apply inv_run; auto using inv_init. Qed.
+
+(** ** Memory and disk agree
+
+    over HTTP: every history of logins, requests, logout requests and
+    restarts (a direct [removeSession] only with a canonical spelling). *)
+Definition mirror (st : sstate) : Prop :=
+  ss_mem st = kmap hex_encode (ss_disk st) /\ map_Forall (fun k _ => is_bytes k) (ss_disk st).
+
+Definition wf_http (o : sop) : Prop :=
+  match o with SNew _ raw _ => is_bytes raw | SRemove sp => canonical sp | _ => True end.
+
+Lemma wf_http_new o : wf_http o -> wf_new o.
+Proof. destruct o; cbn; auto. Qed.
+
+Lemma mirror_inv st : mirror st -> inv st.
+Proof.
+  intros [Hm Hb]. split.
+  - intros sp s. rewrite Hm, lookup_kmap_Some by apply _. intros (raw & -> & H). exists raw. split; auto.
+    apply (Hb _ _ H).
+  - intros raw s H. split; [apply (Hb _ _ H)|]. rewrite Hm, lookup_kmap by apply _. exact H.
+Qed.
+
+Lemma mirror_mem_disk st raw : mirror st -> ss_mem st !! hex_encode raw = ss_disk st !! raw.
+Proof. intros [Hm _]. rewrite Hm. apply lookup_kmap. apply _. Qed.
+
+Lemma mirror_new ttl now raw u st : is_bytes raw -> mirror st -> mirror (new_session ttl now raw u st).
+Proof.
+  intros Hb [Hm Hf]. split; cbn.
+  - rewrite Hm, kmap_insert by apply _. reflexivity.
+  - apply map_Forall_insert_2; auto.
+Qed.
+
+Lemma mirror_logout sp st : canonical sp -> mirror st -> mirror (logout sp st).
+Proof.
+  intros Hc [Hm Hf]. split; cbn.
+  - rewrite Hm, kmap_delete by apply _. rewrite Hc. reflexivity.
+  - apply map_Forall_delete; auto.
+Qed.
+
+Lemma mirror_check ttl now sp st : mirror st -> mirror (fst (check_session ttl now sp st)).
+Proof.
+  intros Hmi. unfold check_session.
+  destruct (ss_mem st !! sp) as [s0|] eqn:E; cbn; auto.
+  pose proof (inv_mem_canonical st sp s0 (mirror_inv _ Hmi) E) as Hc.
+  destruct (s_expire s0 <=? u32 now); cbn; [apply (mirror_logout sp st Hc Hmi)|].
+  destruct (s_expire s0 / day =? u32 (u32 now + ttl) / day); cbn; auto.
+  destruct Hmi as [Hm Hf]. split; cbn.
+  - rewrite Hm, kmap_insert by apply _. rewrite Hc. reflexivity.
+  - apply map_Forall_insert_2; auto.
+    destruct (inv_mem _ (mirror_inv _ (conj Hm Hf)) _ _ E) as (raw0 & -> & Hb0).
+    rewrite hex_decode_encode; auto.
+Qed.
+
+Lemma check_ok_in_mem ttl now sp st :
+  snd (check_session ttl now sp st) = CSOK -> exists s, ss_mem (fst (check_session ttl now sp st)) !! sp = Some s.
+Proof.
+  unfold check_session. destruct (ss_mem st !! sp) as [s0|] eqn:E; cbn; [|discriminate].
+  destruct (s_expire s0 <=? u32 now); cbn; [discriminate|].
+  destruct (s_expire s0 / day =? u32 (u32 now + ttl) / day); cbn; intros _; eauto.
+  rewrite lookup_insert. eauto.
+Qed.
+
+Lemma mirror_logout_request ttl now sp st : mirror st -> mirror (fst (logout_request ttl now sp st)).
+Proof.
+  intros Hmi. unfold logout_request. pose proof (mirror_check ttl now sp st Hmi) as Hc.
+  pose proof (check_ok_in_mem ttl now sp st) as Hin.
+  destruct (check_session ttl now sp st) as [st' r]. cbn in *.
+  destruct r; cbn; auto. destruct (Hin eq_refl) as [s Hs].
+  apply mirror_logout; auto. eapply inv_mem_canonical; eauto using mirror_inv.
+Qed.
+
+Lemma mirror_restart now st : mirror st -> mirror (restart now st).
+Proof.
+  intros [Hm Hf]. split; [reflexivity|]. cbn.
+  intros k s H. apply map_filter_lookup_Some in H as [H _]. apply (Hf _ _ H).
+Qed.
+
+Lemma sstep_mirror ttl o st : wf_http o -> mirror st -> mirror (fst (sstep ttl o st)).
+Proof.
+  intros Hw Hm. destruct o as [now raw u|now sp|now sp|sp|now]; cbn [sstep].
+  - apply mirror_new; auto.
+  - pose proof (mirror_check ttl now sp st Hm). destruct (check_session ttl now sp st); auto.
+  - pose proof (mirror_logout_request ttl now sp st Hm). destruct (logout_request ttl now sp st); auto.
+  - apply mirror_logout; auto.
+  - apply mirror_restart; auto.
+Qed.
+
+Lemma srun_mirror_from ttl h : forall st, Forall wf_http h -> mirror st -> mirror (srun ttl st h).
+Proof.
+  induction h as [|o h IH]; intros st Hw H; [exact H|].
+  apply Forall_cons_1 in Hw as [Ho Hw]. cbn. apply IH; auto using sstep_mirror.
+Qed.
+
+Lemma mirror_init : mirror s_init.
+Proof. split; cbn; [rewrite kmap_empty; reflexivity|apply map_Forall_empty]. Qed.
+
+Theorem reachable_mirror ttl h : Forall wf_http h -> mirror (srun ttl s_init h).
+Proof. intros Hw. apply srun_mirror_from; auto using mirror_init. Qed.
+
+(** A restart never brings a session into memory that was not there: for
+    every history, direct removals with any spelling included. *)
+Theorem restart_no_new ttl h now sp s :
+  Forall wf_new h ->
+  ss_mem (restart now (srun ttl s_init h)) !! sp = Some s -> ss_mem (srun ttl s_init h) !! sp = Some s.
+Proof.
+  intros Hw. rewrite restart_mem_Some. intros (raw & -> & H & _).
+  apply (inv_disk _ (reachable_inv ttl h Hw) _ _ H).
+Qed.
 
 (** * What [authenticates] means on a state *)
 
-Lemma authenticates_spec ttl t tok st :
-  authenticates ttl t tok st = true <->
-  exists s, ss_mem st !! tok = Some s /\ u32 t < s_expire s.
+Lemma authenticates_spec ttl t sp st :
+  authenticates ttl t sp st = true <->
+  exists s, ss_mem st !! sp = Some s /\ u32 t < s_expire s.
 Proof.
   unfold authenticates, check_session.
-  destruct (ss_mem st !! tok) as [s|]; cbn.
+  destruct (ss_mem st !! sp) as [s|]; cbn.
   - destruct (s_expire s <=? u32 t) eqn:E; cbn.
     + apply N.leb_le in E. split; [discriminate|]. intros (s' & [= <-] & ?). lia.
     + apply N.leb_gt in E.
@@ -45,28 +286,49 @@ Proof.
   - split; [discriminate|]. intros (s' & ? & _). discriminate.
 Qed.
 
+Lemma absent_not_auth ttl t sp st : ss_mem st !! sp = None -> authenticates ttl t sp st = false.
+Proof.
+  intros H. apply not_true_iff_false. rewrite authenticates_spec. intros (s & Hs & _). congruence.
+Qed.
+
+(** Only the canonical spelling of a key can authenticate. *)
+Theorem only_canonical_authenticates ttl h t sp :
+  Forall wf_new h -> authenticates ttl t sp (srun ttl s_init h) = true -> canonical sp.
+Proof.
+  intros Hw. rewrite authenticates_spec. intros (s & Hs & _).
+  eapply inv_mem_canonical; eauto using reachable_inv.
+Qed.
+
 (** * Restart *)
 
-Lemma restart_lookup now st tok :
+Lemma restart_lookup now st sp :
   mirror st ->
-  ss_mem (restart now st) !! tok =
-    match ss_mem st !! tok with
+  ss_mem (restart now st) !! sp =
+    match ss_mem st !! sp with
     | Some s => if decide (u32 now < s_expire s) then Some s else None
     | None => None
     end.
 Proof.
-  unfold mirror, restart. intros ->. cbn. rewrite map_filter_lookup.
-  destruct (ss_disk st !! tok) as [s|]; cbn; auto.
+  intros Hmi. apply option_eq. intros s'. rewrite restart_mem_Some.
+  destruct (ss_mem st !! sp) as [s|] eqn:E.
+  - destruct (inv_mem _ (mirror_inv _ Hmi) _ _ E) as (raw & -> & Hb).
+    rewrite (mirror_mem_disk st raw Hmi) in E.
+    split.
+    + intros (raw' & He & Hd & Hl). apply (inj hex_encode) in He. subst raw'.
+      assert (s' = s) by congruence. subst s'. rewrite decide_True; auto.
+    + destruct (decide (u32 now < s_expire s)); [|discriminate]. intros [= <-]. eauto.
+  - split; [|discriminate]. intros (raw & -> & Hd & _).
+    rewrite (mirror_mem_disk st raw Hmi) in E. congruence.
 Qed.
 
-(** A restart at [now] does not change whether a token authenticates at any
+(** A restart at [now] does not change whether a cookie authenticates at any
     [t] from [now] on. *)
-Lemma restart_preserves_state ttl now t tok st :
+Lemma restart_preserves_state ttl now t sp st :
   mirror st -> u32 now <= u32 t ->
-  authenticates ttl t tok (restart now st) = authenticates ttl t tok st.
+  authenticates ttl t sp (restart now st) = authenticates ttl t sp st.
 Proof.
   intros Hm Hle. apply eq_true_iff_eq. rewrite !authenticates_spec, restart_lookup by auto.
-  destruct (ss_mem st !! tok) as [s|]; [|reflexivity].
+  destruct (ss_mem st !! sp) as [s|]; [|reflexivity].
   destruct (decide (u32 now < s_expire s)); [reflexivity|].
   split; intros (s' & Hs & H); [discriminate|]. injection Hs as <-. lia.
 Qed.
@@ -74,156 +336,228 @@ Qed.
 Definition restarts (nows : list N) (st : sstate) : sstate :=
   fold_left (fun st n => restart n st) nows st.
 
-Lemma restart_mirror now st : mirror st -> mirror (restart now st).
-Proof. intros H. apply (sstep_mirror 0 (SRestart now) st H). Qed.
-
-Theorem restart_preserves ttl h nows t tok :
+Theorem restart_preserves ttl h nows t sp :
+  Forall wf_http h ->
   Forall (fun n => u32 n <= u32 t) nows ->
-  authenticates ttl t tok (restarts nows (srun ttl s_init h)) =
-  authenticates ttl t tok (srun ttl s_init h).
+  authenticates ttl t sp (restarts nows (srun ttl s_init h)) =
+  authenticates ttl t sp (srun ttl s_init h).
 Proof.
-  intros Hn. generalize (reachable_mirror ttl h). generalize (srun ttl s_init h) as st.
+  intros Hw Hn. generalize (reachable_mirror ttl h Hw). generalize (srun ttl s_init h) as st.
   induction Hn as [|n nows Hle _ IH]; intros st Hm; [reflexivity|].
-  cbn. rewrite IH by auto using restart_mirror. apply restart_preserves_state; auto.
+  cbn. rewrite IH by auto using mirror_restart. apply restart_preserves_state; auto.
 Qed.
 
 (** * The window: soundness ("only") *)
 
-(** [ev], executed after the history [h1], sets the expiry of [tok] from the
-    clock value [t0]: the login that created it, or a check that accepted it. *)
-Definition grants (ttl : N) (h1 : list sop) (ev : sop) (tok t0 : N) : Prop :=
-  (exists u, ev = SNew t0 tok u) \/
-  (ev = SCheck t0 tok /\ authenticates ttl t0 tok (srun ttl s_init h1) = true).
+(** Operations that take the spelling [sp] out of the map. *)
+Definition removes (sp : bytes) (o : sop) : Prop :=
+  o = SRemove sp \/ exists now, o = SLogout now sp.
 
-Definition granted (ttl : N) (h : list sop) (tok e : N) : Prop :=
+Lemma classic_removes sp o : removes sp o \/ ~ removes sp o.
+Proof.
+  destruct o as [now raw u|now sp'|now sp'|sp'|now]; try (right; intros [H|[? H]]; discriminate).
+  - destruct (decide (sp' = sp)) as [->|Hne]; [left; right; eauto|right; intros [H|[? H]]; congruence].
+  - destruct (decide (sp' = sp)) as [->|Hne]; [left; left; auto|right; intros [H|[? H]]; congruence].
+Qed.
+
+Lemma removes_absent ttl sp o st : removes sp o -> ss_mem (fst (sstep ttl o st)) !! sp = None.
+Proof.
+  intros [->|[now ->]]; cbn; [apply lookup_delete|].
+  unfold logout_request, check_session.
+  destruct (ss_mem st !! sp) as [s|] eqn:E; cbn; [|exact E].
+  destruct (s_expire s <=? u32 now); cbn; [apply lookup_delete|].
+  destruct (s_expire s / day =? u32 (u32 now + ttl) / day); cbn; apply lookup_delete.
+Qed.
+
+(** An operation that is not about [sp] and issues no token spelt [sp] leaves
+    [sp]'s entry alone, except that a restart may drop it. *)
+Definition issues (sp : bytes) (o : sop) : Prop :=
+  exists t0 raw u, o = SNew t0 raw u /\ hex_encode raw = sp.
+
+(** [ev], executed after the history [h1], sets the expiry of [sp] from the
+    clock value [t0]: the login that issued it, or a request that was
+    accepted. *)
+Definition grants (ttl : N) (h1 : list sop) (ev : sop) (sp : bytes) (t0 : N) : Prop :=
+  (exists raw u, ev = SNew t0 raw u /\ hex_encode raw = sp) \/
+  (ev = SCheck t0 sp /\ authenticates ttl t0 sp (srun ttl s_init h1) = true).
+
+Definition granted (ttl : N) (h : list sop) (sp : bytes) (e : N) : Prop :=
   exists h1 ev h2 t0,
-    h = h1 ++ ev :: h2 /\ grants ttl h1 ev tok t0 /\ e = u32 (u32 t0 + ttl) /\
-    Forall (fun o => o <> SLogout tok) h2.
+    h = h1 ++ ev :: h2 /\ grants ttl h1 ev sp t0 /\ e = u32 (u32 t0 + ttl) /\
+    Forall (fun o => ~ removes sp o) h2.
 
-Lemma granted_snoc ttl h o tok e :
-  o <> SLogout tok -> granted ttl h tok e -> granted ttl (h ++ [o]) tok e.
+Lemma granted_snoc ttl h o sp e :
+  ~ removes sp o -> granted ttl h sp e -> granted ttl (h ++ [o]) sp e.
 Proof.
   intros Ho (h1 & ev & h2 & t0 & -> & Hg & He & Hall).
   exists h1, ev, (h2 ++ [o]), t0. rewrite <- app_assoc. cbn. repeat split; auto.
   apply Forall_app; split; auto.
 Qed.
 
-Lemma session_inv ttl h : forall tok s,
-  ss_mem (srun ttl s_init h) !! tok = Some s -> granted ttl h tok (s_expire s).
+Lemma session_inv ttl h : Forall wf_new h -> forall sp s,
+  ss_mem (srun ttl s_init h) !! sp = Some s -> granted ttl h sp (s_expire s).
 Proof.
-  induction h as [|o h IH] using rev_ind; intros tok s.
+  induction h as [|o h IH] using rev_ind; intros Hw sp s.
   - cbn. rewrite lookup_empty. discriminate.
-  - rewrite srun_snoc. pose proof (reachable_mirror ttl h) as Hm.
+  - apply Forall_app in Hw as [Hw Ho]. specialize (IH Hw).
+    rewrite srun_snoc. pose proof (reachable_inv ttl h Hw) as Hi.
     set (st := srun ttl s_init h) in *.
-    destruct o as [now tok' u|now tok'|tok'|now]; cbn.
+    (* an operation that removes [sp] leaves no entry *)
+    destruct (classic_removes sp o) as [Hr|Hr].
+    { rewrite (removes_absent ttl sp o st Hr). discriminate. }
+    destruct o as [now raw u|now sp'|now sp'|sp'|now]; cbn [sstep].
     + (* login *)
-      destruct (decide (tok' = tok)) as [->|Hne].
+      cbn. destruct (decide (hex_encode raw = sp)) as [<-|Hne].
       * rewrite lookup_insert. intros [= <-]. cbn.
-        exists h, (SNew now tok u), [], now. repeat split; auto. left; eauto.
-      * rewrite lookup_insert_ne by auto. intros H. apply granted_snoc; [congruence|]. auto.
-    + (* check *)
+        exists h, (SNew now raw u), [], now. repeat split; auto. left; eauto.
+      * rewrite lookup_insert_ne by auto. intros H. apply granted_snoc; auto.
+    + (* request *)
       unfold check_session.
-      destruct (ss_mem st !! tok') as [s'|] eqn:E; cbn.
+      destruct (ss_mem st !! sp') as [s'|] eqn:E; cbn.
       * destruct (s_expire s' <=? u32 now) eqn:Ex; cbn.
-        -- destruct (decide (tok' = tok)) as [->|Hne].
+        -- destruct (decide (sp' = sp)) as [->|Hne].
            ++ rewrite lookup_delete. discriminate.
-           ++ rewrite lookup_delete_ne by auto. intros H. apply granted_snoc; [congruence|]. auto.
+           ++ rewrite lookup_delete_ne by auto. intros H. apply granted_snoc; auto.
         -- destruct (s_expire s' / day =? u32 (u32 now + ttl) / day) eqn:Ed; cbn.
-           ++ intros H. apply granted_snoc; [congruence|]. auto.
-           ++ destruct (decide (tok' = tok)) as [->|Hne].
+           ++ intros H. apply granted_snoc; auto.
+           ++ destruct (decide (sp' = sp)) as [->|Hne].
               ** rewrite lookup_insert. intros [= <-]. cbn.
-                 exists h, (SCheck now tok), [], now. repeat split; auto. right. split; auto.
+                 exists h, (SCheck now sp), [], now. repeat split; auto. right. split; auto.
                  apply authenticates_spec. exists s'. split; auto. apply N.leb_gt in Ex. exact Ex.
-              ** rewrite lookup_insert_ne by auto. intros H. apply granted_snoc; [congruence|]. auto.
-      * intros H. apply granted_snoc; [congruence|]. auto.
-    + (* logout *)
-      destruct (decide (tok' = tok)) as [->|Hne].
-      * rewrite lookup_delete. discriminate.
-      * rewrite lookup_delete_ne by auto. intros H. apply granted_snoc; [congruence|]. auto.
+              ** rewrite lookup_insert_ne by auto. intros H. apply granted_snoc; auto.
+      * intros H. apply granted_snoc; auto.
+    + (* logout request for another spelling *)
+      assert (Hne : sp' <> sp) by (intros ->; apply Hr; right; eauto).
+      unfold logout_request, check_session.
+      destruct (ss_mem st !! sp') as [s'|] eqn:E; cbn.
+      * destruct (s_expire s' <=? u32 now); cbn.
+        -- rewrite lookup_delete_ne by auto. intros H. apply granted_snoc; auto.
+        -- destruct (s_expire s' / day =? u32 (u32 now + ttl) / day); cbn.
+           ++ rewrite lookup_delete_ne by auto. intros H. apply granted_snoc; auto.
+           ++ rewrite lookup_delete_ne, lookup_insert_ne by auto. intros H. apply granted_snoc; auto.
+      * intros H. apply granted_snoc; auto.
+    + (* direct removal of another spelling *)
+      assert (Hne : sp' <> sp) by (intros ->; apply Hr; left; reflexivity).
+      cbn. rewrite lookup_delete_ne by auto. intros H. apply granted_snoc; auto.
     + (* restart *)
-      change (filter _ (ss_disk st)) with (ss_mem (restart now st)). rewrite restart_lookup by auto.
-      destruct (ss_mem st !! tok) as [s'|] eqn:E; [|discriminate].
-      destruct (decide (u32 now < s_expire s')); [|discriminate].
-      intros [= <-]. apply granted_snoc; [congruence|]. auto.
+      intros H. apply restart_mem_Some in H as (raw & -> & Hd & _).
+      apply granted_snoc; auto. apply IH. apply (inv_disk _ Hi _ _ Hd).
 Qed.
 
-(** A token authenticates at [t] only if some earlier event of the history (the
-    login that created it, or a request that was itself accepted) set its
-    expiry from a clock value [t0] with [t] before [t0 + ttl] (in 32-bit
-    arithmetic), and the token has not been logged out since.  This holds for
-    every history, restarts included. *)
-Theorem session_window_sound ttl h t tok :
-  authenticates ttl t tok (srun ttl s_init h) = true ->
-  exists e, granted ttl h tok e /\ u32 t < e.
+(** A cookie authenticates at [t] only if some earlier event of the history
+    (the login that issued this spelling, or a request with it that was
+    itself accepted) set its expiry from a clock value [t0] with [t] before
+    [t0 + ttl] (in 32-bit arithmetic), and no logout request or removal with
+    this spelling came since.  This holds for every history, restarts and
+    direct removals with any spelling included. *)
+Theorem session_window_sound ttl h t sp :
+  Forall wf_new h ->
+  authenticates ttl t sp (srun ttl s_init h) = true ->
+  exists e, granted ttl h sp e /\ u32 t < e.
 Proof.
-  rewrite authenticates_spec. intros (s & Hs & Ht).
+  intros Hw. rewrite authenticates_spec. intros (s & Hs & Ht).
   exists (s_expire s). split; auto. apply session_inv; auto.
 Qed.
 
 (** * Absence is stable: never issued, logged out, found expired *)
 
-Lemma sstep_absent ttl o st tok :
-  mirror st -> ss_mem st !! tok = None -> (forall t0 u, o <> SNew t0 tok u) ->
-  ss_mem (fst (sstep ttl o st)) !! tok = None.
+Lemma sstep_absent ttl o st sp :
+  inv st -> ss_mem st !! sp = None -> ~ issues sp o ->
+  ss_mem (fst (sstep ttl o st)) !! sp = None.
 Proof.
-  intros Hm Hnone Ho.
-  destruct o as [now tok' u|now tok'|tok'|now]; cbn.
-  - destruct (decide (tok' = tok)) as [->|Hne]; [exfalso; eapply Ho; eauto|].
+  intros Hi Hnone Ho.
+  destruct o as [now raw u|now sp'|now sp'|sp'|now]; cbn [sstep].
+  - cbn. destruct (decide (hex_encode raw = sp)) as [E|Hne]; [exfalso; apply Ho; repeat eexists; eauto|].
     rewrite lookup_insert_ne by auto. auto.
-  - unfold check_session. destruct (ss_mem st !! tok') as [s'|] eqn:E; cbn; auto.
-    destruct (decide (tok' = tok)) as [->|Hne]; [congruence|].
+  - unfold check_session. destruct (ss_mem st !! sp') as [s'|] eqn:E; cbn; auto.
+    destruct (decide (sp' = sp)) as [->|Hne]; [congruence|].
     destruct (s_expire s' <=? u32 now); cbn; [rewrite lookup_delete_ne by auto; auto|].
     destruct (s_expire s' / day =? u32 (u32 now + ttl) / day); cbn; auto.
     rewrite lookup_insert_ne by auto. auto.
-  - destruct (decide (tok' = tok)) as [->|Hne]; [apply lookup_delete|].
+  - unfold logout_request, check_session. destruct (ss_mem st !! sp') as [s'|] eqn:E; cbn; auto.
+    destruct (decide (sp' = sp)) as [->|Hne]; [congruence|].
+    destruct (s_expire s' <=? u32 now); cbn; [rewrite lookup_delete_ne by auto; auto|].
+    destruct (s_expire s' / day =? u32 (u32 now + ttl) / day); cbn.
+    + rewrite lookup_delete_ne by auto. auto.
+    + rewrite lookup_delete_ne, lookup_insert_ne by auto. auto.
+  - cbn. destruct (decide (sp' = sp)) as [->|Hne]; [apply lookup_delete|].
     rewrite lookup_delete_ne by auto. auto.
-  - change (filter _ (ss_disk st)) with (ss_mem (restart now st)). rewrite restart_lookup, Hnone by auto. reflexivity.
+  - cbn [fst]. destruct (ss_mem (restart now st) !! sp) as [s|] eqn:E; [|reflexivity].
+    apply restart_mem_Some in E as (raw & -> & Hd & _).
+    destruct (inv_disk _ Hi _ _ Hd) as [_ Hm]. congruence.
 Qed.
 
-Lemma stays_absent ttl tok h : forall st,
-  mirror st -> ss_mem st !! tok = None ->
-  Forall (fun o => forall t0 u, o <> SNew t0 tok u) h ->
-  ss_mem (srun ttl st h) !! tok = None.
+Lemma stays_absent ttl sp h : forall st,
+  inv st -> ss_mem st !! sp = None ->
+  Forall (fun o => wf_new o /\ ~ issues sp o) h ->
+  ss_mem (srun ttl st h) !! sp = None.
 Proof.
-  induction h as [|o h IH]; intros st Hm Hnone Hn; [exact Hnone|].
-  apply Forall_cons_1 in Hn as [Ho Hn]. cbn.
-  apply IH; auto using sstep_mirror, sstep_absent.
+  induction h as [|o h IH]; intros st Hi Hnone Hn; [exact Hnone|].
+  apply Forall_cons_1 in Hn as [[Hw Ho] Hn]. cbn.
+  apply IH; auto using inv_step, sstep_absent.
 Qed.
 
-Lemma absent_not_auth ttl t tok st : ss_mem st !! tok = None -> authenticates ttl t tok st = false.
+(** A spelling that was never issued never authenticates. *)
+Theorem never_issued ttl h t sp :
+  Forall (fun o => wf_new o /\ ~ issues sp o) h ->
+  authenticates ttl t sp (srun ttl s_init h) = false.
 Proof.
-  intros H. apply not_true_iff_false. rewrite authenticates_spec. intros (s & Hs & _). congruence.
+  intros Hn. apply absent_not_auth, stays_absent; auto using inv_init.
 Qed.
 
-(** A token that was never issued never authenticates. *)
-Theorem never_issued ttl h t tok :
-  Forall (fun o => forall t0 u, o <> SNew t0 tok u) h ->
-  authenticates ttl t tok (srun ttl s_init h) = false.
+Lemma Forall_wf_new_of h sp : Forall (fun o => wf_new o /\ ~ issues sp o) h -> Forall wf_new h.
+Proof. intros H. eapply Forall_impl; [exact H|]. cbn. tauto. Qed.
+
+(** After a logout request or a removal with spelling [sp], that spelling is
+    dead for good (until the same token is issued again, which for 128 random
+    bits does not happen), across restarts. *)
+Theorem removed_final ttl h1 h2 o t sp :
+  removes sp o -> Forall wf_new h1 ->
+  Forall (fun o => wf_new o /\ ~ issues sp o) h2 ->
+  authenticates ttl t sp (srun ttl s_init (h1 ++ o :: h2)) = false.
 Proof.
-  intros Hn. apply absent_not_auth, stays_absent; auto; reflexivity.
+  intros Hr Hw Hn. rewrite srun_app. cbn [srun]. apply absent_not_auth, stays_absent; auto.
+  - apply inv_step; auto using reachable_inv. destruct Hr as [->|[now ->]]; exact I.
+  - apply removes_absent; auto.
 Qed.
 
-(** After a logout the token is dead for good (until the same token is issued
-    again, which for 128 random bits does not happen), across restarts. *)
-Theorem logout_final ttl h1 h2 t tok :
-  Forall (fun o => forall t0 u, o <> SNew t0 tok u) h2 ->
-  authenticates ttl t tok (srun ttl s_init (h1 ++ SLogout tok :: h2)) = false.
+(** Logout over HTTP is final for the token, not just for the spelling sent:
+    if the logout request was accepted (its cookie authenticated), then no
+    spelling that decodes to the same key authenticates afterwards, at any
+    time, across restarts, unless the token is issued again. *)
+Theorem logout_final ttl h1 h2 now t sp sp' :
+  Forall wf_new h1 ->
+  authenticates ttl now sp (srun ttl s_init h1) = true ->
+  hex_decode_prefix sp' = hex_decode_prefix sp ->
+  Forall (fun o => wf_new o /\ forall t0 raw u, o = SNew t0 raw u -> raw <> hex_decode_prefix sp) h2 ->
+  authenticates ttl t sp' (srun ttl s_init (h1 ++ SLogout now sp :: h2)) = false.
 Proof.
-  intros Hn. rewrite srun_app. cbn [srun]. apply absent_not_auth, stays_absent; auto.
-  - apply sstep_mirror, reachable_mirror.
-  - cbn. apply lookup_delete.
+  intros Hw Hauth Hdec Hn.
+  pose proof (only_canonical_authenticates ttl h1 now sp Hw Hauth) as Hc.
+  assert (Hw' : Forall wf_new (h1 ++ SLogout now sp :: h2)).
+  { apply Forall_app. split; auto. constructor; [exact I|]. eapply Forall_impl; [exact Hn|]. cbn. intros ? [? _]; assumption. }
+  destruct (classic_canonical sp') as [Hc'|Hc'].
+  - (* the canonical spelling: it is [sp] itself *)
+    assert (sp' = sp) by (apply canonical_unique; auto). subst sp'.
+    apply removed_final; auto; [right; eauto|].
+    eapply Forall_impl; [exact Hn|]. intros o [Ho1 Ho2]. split; auto.
+    intros (t0 & raw & u & -> & E). apply (Ho2 _ _ _ eq_refl).
+    rewrite <- E. symmetry. apply hex_decode_encode. exact Ho1.
+  - (* any other spelling never authenticates *)
+    apply absent_not_auth, inv_noncanonical; auto using reachable_inv.
 Qed.
 
-(** Likewise once a request has found the token expired. *)
-Theorem expired_final ttl h1 h2 now t tok :
-  snd (check_session ttl now tok (srun ttl s_init h1)) = CSExpired ->
-  Forall (fun o => forall t0 u, o <> SNew t0 tok u) h2 ->
-  authenticates ttl t tok (srun ttl s_init (h1 ++ SCheck now tok :: h2)) = false.
+(** Likewise once a request has found the cookie expired. *)
+Theorem expired_final ttl h1 h2 now t sp :
+  Forall wf_new h1 ->
+  snd (check_session ttl now sp (srun ttl s_init h1)) = CSExpired ->
+  Forall (fun o => wf_new o /\ ~ issues sp o) h2 ->
+  authenticates ttl t sp (srun ttl s_init (h1 ++ SCheck now sp :: h2)) = false.
 Proof.
-  intros Hex Hn. rewrite srun_app. cbn [srun]. apply absent_not_auth, stays_absent; auto.
-  - apply sstep_mirror, reachable_mirror.
+  intros Hw Hex Hn. rewrite srun_app. cbn [srun]. apply absent_not_auth, stays_absent; auto.
+  - apply inv_step; auto using reachable_inv. exact I.
   - cbn. revert Hex. unfold check_session.
-    destruct (ss_mem (srun ttl s_init h1) !! tok) as [s|]; cbn; [|discriminate].
+    destruct (ss_mem (srun ttl s_init h1) !! sp) as [s|]; cbn; [|discriminate].
     destruct (s_expire s <=? u32 now); cbn; [intros _; apply lookup_delete|].
     destruct (s_expire s / day =? u32 (u32 now + ttl) / day); discriminate.
 Qed.
@@ -231,56 +565,137 @@ Qed.
 (** * The window: completeness *)
 
 Definition op_time (o : sop) : option N :=
-  match o with SNew t _ _ | SCheck t _ | SRestart t => Some t | SLogout _ => None end.
+  match o with SNew t _ _ | SCheck t _ | SLogout t _ | SRestart t => Some t | SRemove _ => None end.
+
+(** Operations that may take the token [raw] away: a logout request or removal
+    with its canonical spelling, a direct removal with any spelling of it, and
+    a second issue of the same token. *)
+Definition spares (raw : bytes) (o : sop) : Prop :=
+  ~ removes (hex_encode raw) o /\
+  (forall sp, o = SRemove sp -> hex_decode_prefix sp <> raw) /\
+  (forall t' raw' u', o = SNew t' raw' u' -> raw' <> raw).
 
 (** From its creation at [t0] until [t0 + ttl] a token that is not logged out
-    authenticates, whatever else happens (other logins, requests, restarts),
-    provided the clock does not go back before [t0] and no 32-bit wrap-around
-    is in reach. *)
-Theorem session_window_complete ttl h1 h2 t0 t tok u :
-  Forall (fun o => o <> SLogout tok /\ (forall t' u', o <> SNew t' tok u') /\
-                   (forall t', op_time o = Some t' -> t0 <= t' <= t)) h2 ->
+    authenticates (with the spelling it was issued with), whatever else
+    happens (other logins, requests with any spelling, restarts), provided the
+    clock does not go back before [t0] and no 32-bit wrap-around is in reach. *)
+Theorem session_window_complete ttl h1 h2 t0 t raw u :
+  Forall wf_new (h1 ++ SNew t0 raw u :: h2) ->
+  Forall (fun o => spares raw o /\ (forall t', op_time o = Some t' -> t0 <= t' <= t)) h2 ->
   t0 <= t -> t < t0 + ttl -> t + ttl < 4294967296 ->
-  authenticates ttl t tok (srun ttl s_init (h1 ++ SNew t0 tok u :: h2)) = true.
+  authenticates ttl t (hex_encode raw) (srun ttl s_init (h1 ++ SNew t0 raw u :: h2)) = true.
 Proof.
-  intros Hall H0 H1 H2. rewrite srun_app. cbn [srun].
-  set (st0 := fst (sstep ttl (SNew t0 tok u) (srun ttl s_init h1))).
-  assert (Hm0 : mirror st0) by apply sstep_mirror, reachable_mirror.
-  assert (Hs0 : exists s, ss_mem st0 !! tok = Some s /\ t0 + ttl <= s_expire s).
-  { cbn. rewrite lookup_insert. eexists; split; eauto. cbn. unfold u32.
+  intros Hw Hall H0 H1 H2. rewrite srun_app. cbn [srun].
+  apply Forall_app in Hw as [Hw1 Hw2]. apply Forall_cons_1 in Hw2 as [Hraw Hw2]. cbn in Hraw.
+  set (sp := hex_encode raw).
+  set (st0 := fst (sstep ttl (SNew t0 raw u) (srun ttl s_init h1))).
+  assert (Hi0 : inv st0) by (apply inv_step; auto using reachable_inv).
+  assert (Hs0 : exists s, ss_mem st0 !! sp = Some s /\ ss_disk st0 !! raw = Some s /\ t0 + ttl <= s_expire s).
+  { cbn. rewrite !lookup_insert. eexists; repeat split; eauto. cbn. unfold u32.
     rewrite (N.mod_small t0) by lia. rewrite N.mod_small by lia. lia. }
-  clearbody st0. revert st0 Hm0 Hs0.
-  induction h2 as [|o h2 IH]; intros st Hm (s & Hs & He).
+  clearbody st0. revert st0 Hi0 Hs0.
+  induction h2 as [|o h2 IH]; intros st Hi (s & Hs & Hd & He).
   - cbn. apply authenticates_spec. exists s. split; auto. unfold u32. rewrite N.mod_small by lia. lia.
-  - apply Forall_cons_1 in Hall as [(Ho1 & Ho2 & Ho3) Hall]. cbn [srun].
-    apply IH; auto using sstep_mirror.
-    destruct o as [now tok' u'|now tok'|tok'|now]; cbn.
-    + destruct (decide (tok' = tok)) as [->|Hne]; [exfalso; eapply Ho2; eauto|].
-      rewrite lookup_insert_ne by auto. eauto.
-    + specialize (Ho3 now eq_refl).
+  - apply Forall_cons_1 in Hall as [((Ho1 & Ho2 & Ho3) & Ho4) Hall].
+    apply Forall_cons_1 in Hw2 as [Hwo Hw2]. cbn [srun].
+    apply IH; auto using inv_step.
+    (* an entry of another spelling decodes to another key *)
+    assert (Hother : forall sp' s', sp' <> sp -> ss_mem st !! sp' = Some s' -> hex_decode_prefix sp' <> raw).
+    { intros sp' s' Hne Hm E. destruct (inv_mem _ Hi _ _ Hm) as (raw' & -> & Hb').
+      rewrite hex_decode_encode in E by auto. subst raw'. apply Hne. reflexivity. }
+    destruct o as [now raw' u'|now sp'|now sp'|sp'|now]; cbn [sstep].
+    + cbn. assert (raw' <> raw) by (eapply Ho3; eauto).
+      rewrite !lookup_insert_ne; eauto. intros E. apply (inj hex_encode) in E. auto.
+    + specialize (Ho4 now eq_refl).
       assert (Hu : u32 now = now) by (unfold u32; apply N.mod_small; lia).
-      unfold check_session. destruct (ss_mem st !! tok') as [s'|] eqn:E; cbn; eauto.
-      destruct (decide (tok' = tok)) as [->|Hne].
+      unfold check_session. destruct (ss_mem st !! sp') as [s'|] eqn:E; cbn; eauto.
+      destruct (decide (sp' = sp)) as [->|Hne].
       * assert (s' = s) by congruence. subst s'.
         replace (s_expire s <=? u32 now) with false by (symmetry; apply N.leb_gt; lia).
         destruct (s_expire s / day =? u32 (u32 now + ttl) / day); cbn; eauto.
-        rewrite lookup_insert. eexists; split; eauto. cbn. rewrite Hu. unfold u32.
+        unfold sp. rewrite hex_decode_encode by auto. rewrite !lookup_insert.
+        eexists; repeat split; eauto. cbn. rewrite Hu. unfold u32.
         rewrite N.mod_small by lia. lia.
-      * destruct (s_expire s' <=? u32 now); cbn; [rewrite lookup_delete_ne by auto; eauto|].
+      * pose proof (Hother _ _ Hne E) as Hk.
+        destruct (s_expire s' <=? u32 now); cbn; [rewrite !lookup_delete_ne by auto; eauto|].
         destruct (s_expire s' / day =? u32 (u32 now + ttl) / day); cbn; eauto.
-        rewrite lookup_insert_ne by auto. eauto.
-    + destruct (decide (tok' = tok)) as [->|Hne]; [congruence|].
-      rewrite lookup_delete_ne by auto. eauto.
-    + specialize (Ho3 now eq_refl).
-      change (filter _ (ss_disk st)) with (ss_mem (restart now st)). rewrite restart_lookup, Hs by auto.
-      rewrite decide_True; eauto. unfold u32. rewrite N.mod_small by lia. lia.
+        rewrite !lookup_insert_ne by auto. eauto.
+    + assert (Hne : sp' <> sp) by (intros ->; apply Ho1; right; eauto).
+      unfold logout_request, check_session. destruct (ss_mem st !! sp') as [s'|] eqn:E; cbn; eauto.
+      pose proof (Hother _ _ Hne E) as Hk.
+      destruct (s_expire s' <=? u32 now); cbn; [rewrite !lookup_delete_ne by auto; eauto|].
+      destruct (s_expire s' / day =? u32 (u32 now + ttl) / day); cbn.
+      * rewrite !lookup_delete_ne by auto. eauto.
+      * rewrite !lookup_delete_ne, !lookup_insert_ne by auto. eauto.
+    + assert (Hne : sp' <> sp) by (intros ->; apply Ho1; left; reflexivity).
+      cbn. rewrite !lookup_delete_ne; eauto.
+    + specialize (Ho4 now eq_refl).
+      assert (Hl : u32 now < s_expire s) by (unfold u32; rewrite N.mod_small by lia; lia).
+      exists s. split; [apply restart_mem_Some; eauto|]. split; [apply restart_disk_Some; auto|auto].
 Qed.
 
+(** * What the key handling is needed for *)
+
+(** Function level only: [removeSession] with a non-canonical spelling of a
+    live token (upper case) deletes the bucket entry, leaves the map entry:
+    the session goes on authenticating until the next restart.  Not reachable
+    over HTTP (the logout route runs [checkSession] on the same string first,
+    which does not find it); recorded because it is why [mirror] carries the
+    [wf_http] hypothesis. *)
+Definition ex_raw : bytes := [171].            (* "ab" *)
+Definition ex_upper : bytes := [65; 66].       (* "AB" *)
+
+Example remove_other_spelling_refuted :
+  let h := [SNew 1000 ex_raw [97]; SRemove ex_upper] in
+  hex_decode_prefix ex_upper = ex_raw /\
+  authenticates 3600 2000 (hex_encode ex_raw) (srun 3600 s_init h) = true /\
+  ss_disk (srun 3600 s_init h) !! ex_raw = None /\
+  authenticates 3600 2000 (hex_encode ex_raw) (srun 3600 s_init (h ++ [SRestart 1500])) = false /\
+  (* the same spelling through the logout route: refused, nothing changes *)
+  authenticates 3600 2000 (hex_encode ex_raw) (srun 3600 s_init [SNew 1000 ex_raw [97]; SLogout 1200 ex_upper; SRestart 1500]) = true.
+Proof. vm_compute. repeat split. Qed.
+
+(** Two slips the theorems above exclude.  (1) [checkSession] lower-cases the
+    cookie before the lookup while [removeSession] does not: the upper-case
+    spelling authenticates, its logout is accepted and leaves the session in
+    memory.  (2) [removeSession] passes the cookie string, undecoded, to the
+    bucket: the logout is undone by a restart. *)
+Definition to_lower (s : bytes) : bytes :=
+  map (fun c => if (65 <=? c) && (c <=? 90) then c + 32 else c) s.
+
+Definition slip1_logout_request (ttl now : N) (sp : bytes) (st : sstate) : sstate :=
+  let '(st', r) := check_session ttl now (to_lower sp) st in
+  match r with CSOK => logout sp st' | _ => st' end.
+
+Definition slip2_logout (sp : bytes) (st : sstate) : sstate :=
+  {| ss_mem := delete sp (ss_mem st); ss_disk := delete sp (ss_disk st) |}.
+
+Example key_slips_refuted :
+  let st := new_session 3600 1000 ex_raw [97] s_init in
+  (* (1) *)
+  authenticates 3600 1100 (to_lower ex_upper) st = true /\
+  authenticates 3600 1300 (to_lower ex_upper) (slip1_logout_request 3600 1200 ex_upper st) = true /\
+  (* (2) *)
+  authenticates 3600 1300 (hex_encode ex_raw) (slip2_logout (hex_encode ex_raw) st) = false /\
+  authenticates 3600 1300 (hex_encode ex_raw) (restart 1250 (slip2_logout (hex_encode ex_raw) st)) = true /\
+  (* the code *)
+  authenticates 3600 1300 (hex_encode ex_raw) (fst (logout_request 3600 1200 (hex_encode ex_raw) st)) = false /\
+  authenticates 3600 1300 (hex_encode ex_raw) (restart 1250 (fst (logout_request 3600 1200 (hex_encode ex_raw) st))) = false.
+Proof. vm_compute. repeat split. Qed.
+
 (** Non-vacuity: a token created, checked across a restart, logged out. *)
+Definition ex_tok : bytes := [7; 200].
+Definition ex_sp : bytes := hex_encode ex_tok.     (* "07c8" *)
+
 Example session_premises_satisfiable :
-  let h := [SNew 1000 7 [97]; SCheck 1500 7; SRestart 2000; SCheck 2500 7] in
-  authenticates 3600 3000 7 (srun 3600 s_init h) = true /\
-  authenticates 3600 4600 7 (srun 3600 s_init h) = false /\
-  authenticates 3600 3000 7 (srun 3600 s_init (h ++ [SLogout 7; SRestart 3000])) = false /\
-  authenticates 3600 3000 8 (srun 3600 s_init h) = false.
-Proof. vm_compute. auto. Qed.
+  let h := [SNew 1000 ex_tok [97]; SCheck 1500 ex_sp; SRestart 2000; SCheck 2500 ex_sp] in
+  Forall wf_http h /\
+  authenticates 3600 3000 ex_sp (srun 3600 s_init h) = true /\
+  authenticates 3600 4600 ex_sp (srun 3600 s_init h) = false /\
+  authenticates 3600 3000 ex_sp (srun 3600 s_init (h ++ [SLogout 2600 ex_sp; SRestart 3000])) = false /\
+  authenticates 3600 3000 [48; 55; 67; 56] (srun 3600 s_init h) = false /\      (* "07C8" *)
+  authenticates 3600 3000 [48; 56] (srun 3600 s_init h) = false.
+Proof.
+  cbn zeta. split; [|vm_compute; repeat split].
+  repeat constructor; unfold is_bytes; repeat constructor; lia.
+Qed.
